@@ -129,4 +129,23 @@ foreach ($i as $k => $v) { echo $k, "=", $v, ","; } echo "\n"; echo json_encode(
 	{"samename-generic-1", `class Box<T> { public T $v; } $b = new Box<int>(); $b->v = 1; echo $b->v; try { $b->v = "s"; echo "accepted"; } catch (Throwable $e) { echo "rejected"; } echo "\n";`},
 	{"samename-generic-2", `class Box<T> { public T $v; } $b = new Box<string>(); $b->v = "s"; echo $b->v; try { $b->v = 1; echo "accepted"; } catch (Throwable $e) { echo "rejected"; } echo "\n";`},
 	{"vardump-dynamic", `$o = new stdClass(); $o->zeta = 1; $o->alpha = 2; $o->mid = [1, 2]; var_dump($o); $a = ["y" => 1, "x" => [true, null]]; var_dump($a); var_export($o); echo "\n";`},
+	// every sort function x every flag on inputs with ties (keys / values that compare equal under
+	// the flag), and every builtin taking a callback by NAME (string) on user functions that other
+	// pool programs define differently
+	{"sort-flags-ties", `$y = ["b" => 1, "a" => 4, "c" => 0, "10" => 7, "9" => 8, "01" => 2, "1" => 3];
+foreach ([0, SORT_NUMERIC, SORT_STRING] as $f) { $k = $y; ksort($k, $f); echo json_encode($k), "|"; $k = $y; krsort($k, $f); echo json_encode($k), "\n"; }
+$v = ["10", "9", "1e1", "a", "A", "b", 10, 9.0, "09"];
+foreach ([0, SORT_NUMERIC, SORT_STRING] as $f) { $k = $v; sort($k, $f); echo json_encode($k), "|"; $k = $v; rsort($k, $f); echo json_encode($k), "\n"; }
+$u = [["k" => 1, "n" => "x"], ["k" => 1, "n" => "y"], ["k" => 0, "n" => "z"], ["k" => 1, "n" => "w"]];
+usort($u, function($p, $q) { return $p["k"] <=> $q["k"]; }); echo json_encode($u), "\n";
+echo json_encode(array_unique(["a", "A", "1", 1, "01", 1.0, "a"])), json_encode(array_search("1", ["x" => "01", "y" => 1, "z" => "1"])), "\n";
+echo json_encode(array_keys(["b" => 1, "a" => 1, "c" => 2], 1)), json_encode(array_flip(["x" => 1, "y" => 1, "z" => 2])), "\n";`},
+	{"named-callbacks-1", `function helper($x) { static $n = 0; $n = $n + 1; return "A#" . $n . ":" . ($x * 100); }
+function pred($x) { return $x > 1; } function cmp($p, $q) { return $p <=> $q; } function acc($c, $x) { return $c + $x; }
+echo implode(",", array_map("helper", [7, 8])), "|", call_user_func("helper", 9), "|", json_encode(array_filter([1, 2, 3], "pred")), "|";
+$a = [3, 1, 2]; usort($a, "cmp"); echo json_encode($a), "|", array_reduce([1, 2, 3], "acc", 0), "|", is_callable("helper") ? "c" : "n", function_exists("pred") ? "f" : "n", "\n";`},
+	{"named-callbacks-2", `function helper($x) { static $n = 3; $n = $n + 1; return "B#" . $n . ":" . ($x + 1); }
+function pred($x) { return $x < 3; } function cmp($p, $q) { return $q <=> $p; } function acc($c, $x) { return $c * $x; }
+echo implode(",", array_map("helper", [7, 8])), "|", call_user_func("helper", 9), "|", json_encode(array_filter([1, 2, 3], "pred")), "|";
+$a = [3, 1, 2]; usort($a, "cmp"); echo json_encode($a), "|", array_reduce([1, 2, 3], "acc", 1), "|", is_callable("helper") ? "c" : "n", function_exists("pred") ? "f" : "n", "\n";`},
 }
